@@ -9,7 +9,8 @@ Open Scope Z_scope.
 
 Record ocase := {
   c_max : nat; c_seatmap : list Z; c_players : list oplayer; c_gpi : list Z;
-  c_dealer : Z; c_sb : Z; c_bb : Z; c_sm : sm; c_settings : list (Z * list label)
+  c_dealer : Z; c_sb : Z; c_bb : Z; c_sm : sm; c_settings : list (Z * list label);
+  c_labels_stable : bool    (* no later snapshot of the same hand (playing, settled) showed a player with other labels *)
 }.
 
 (* a settlement snapshot: seat map, players (id, seat, bankroll), big-blind seat, published order *)
@@ -54,7 +55,8 @@ Definition check_open (c : ocase) : list (nat * nat) :=
   (if model_agrees c then [] else [(2%nat, 0%nat)]) ++
   (if C02_ok (snap c) then [] else [(3%nat, C02_diag (snap c))]) ++
   (if C05_ok (is_default c) (snap c) then [] else [(4%nat, C05_diag (is_default c) (snap c))]) ++
-  (if negb (is_default c) || C06_labels_ok (snap c) then [] else [(6%nat, C06_diag (snap c))]).
+  (if negb (is_default c) || C06_labels_ok (snap c) then [] else [(6%nat, C06_diag (snap c))]) ++
+  (if c_labels_stable c then [] else [(6%nat, 5%nat)]).
 
 Definition check_next (c : ncase) : list (nat * nat) :=
   let ps := map (fun p => let '(id, s, b) := p in {| tp_id := id; tp_seat := s; tp_in := true; tp_bank := b; tp_part := false |}) (n_players c) in
@@ -77,7 +79,8 @@ Definition mksm (max : nat) (l : list (option sp)) (d sb bb : Z) (r : rule) (i :
   {| sm_max := max; sm_seats := l; sm_dealer := d; sm_sb := sb; sm_bb := bb; sm_rule := r; sm_init := i |}.
 Definition mkop (id : nat) (seat : Z) (i : bool) (bank : Z) (part : bool) (ls : list label) (fr wt : bool) (ms : nat) : oplayer :=
   {| op_id := id; op_seat := seat; op_in := i; op_bank := bank; op_part := part; op_labels := ls; op_fresh := fr; op_waiting := wt; op_missed := ms |}.
-Definition mkoc (max : nat) (smap : list Z) (ps : list oplayer) (gpi : list Z) (d sb bb : Z) (s : sm) (st : list (Z * list label)) : case :=
-  COpen {| c_max := max; c_seatmap := smap; c_players := ps; c_gpi := gpi; c_dealer := d; c_sb := sb; c_bb := bb; c_sm := s; c_settings := st |}.
+Definition mkoc (max : nat) (smap : list Z) (ps : list oplayer) (gpi : list Z) (d sb bb : Z) (s : sm) (st : list (Z * list label)) (stable : bool) : case :=
+  COpen {| c_max := max; c_seatmap := smap; c_players := ps; c_gpi := gpi; c_dealer := d; c_sb := sb; c_bb := bb; c_sm := s; c_settings := st;
+           c_labels_stable := stable |}.
 Definition mknc (max : nat) (smap : list Z) (ps : list (nat * Z * Z)) (bb : Z) (nx : list nat) : case :=
   CNext {| n_max := max; n_seatmap := smap; n_players := ps; n_bb := bb; n_next := nx |}.
